@@ -749,10 +749,8 @@ class Exec(Engine):
                         self.result = self.typed(self.result, c.returns)
                     except TypeError as e:
                         raise ContractDrift(f"{self.name}: returns {self.result.t}, contract says {c.returns}: {e}")
-                # normal return only when no 'raises' condition holds
-                for exc, cond in c.raises:
-                    t = zand(*[t_ for _, t_ in self.spec_conj([cond], self._with_old(s), None)])
-                    self.oblige(s, znot(t), "raises", f"post.no-normal-return-when[{exc}:{cond[:40]}]/path{i}", self.fn.lineno)
+                if c.returns_nodup and not (self.result.t[0] in ("bag", "set") and self.result.x.get_id() in self.nodup):
+                    raise ContractDrift(f"{self.name}: the contract promises a duplicate-free list, which the engine can only establish for a comprehension over a dict's keys / a set")
                 for ga in c.ghost_asserts:
                     names = {n.id for n in ast.walk(self.reg.parse_spec(ga)) if isinstance(n, ast.Name)}
                     free = {n for n in names if n not in s.vars and n not in self.reg.specfuns and n not in self.reg.macros and n not in self.reg.defined
@@ -763,6 +761,10 @@ class Exec(Engine):
                     for e, t in self.spec_conj([ga], s):
                         self.oblige(s, t, "lemma", f"ghost-assert[{e[:50]}]/path{i}", self.fn.lineno)
                         s.assume(t)
+                # normal return only when no 'raises' condition holds
+                for exc, cond in c.raises:
+                    t = zand(*[t_ for _, t_ in self.spec_conj([cond], self._with_old(s), None)])
+                    self.oblige(s, znot(t), "raises", f"post.no-normal-return-when[{exc}:{cond[:40]}]/path{i}", self.fn.lineno)
                 for e, t in self.spec_conj(c.ensures, s):
                     self.oblige(s, t, "post", f"post[{e[:60]}]/path{i}", self.fn.lineno)
                 self.frame_obligations(s, i)
